@@ -11,7 +11,7 @@ LEVEL = "exploration"
 RULE = ("one or two streams (the second, already sorted one before or after the stream under test in path order) with a sorted backbone (OHx .. OHe, bursts, marks, jumbo bursts) and 0-5 OU[ .. OU] "
         "regions whose inner events have internally unordered clocks lying up to d events back (d from 0 to "
         "beyond the look-back -n, n from 3 up), equal clocks on both sides of the insertion point, regions that "
-        "sort into a previous region or to the very start; always <= the clock of their OU].  Oracle when the "
+        "sort into a previous region or to the very start; always <= the clock of their OU]; a third of the streams with seconds rather than nanoseconds between events (differences beyond 32 bits).  Oracle when the "
         "look-back suffices (depth <= n-2): exit 0, same file size, decoded events = stable sort by clock of the "
         "original events with every event's bytes unchanged (hence permutation, order, stability, untouched "
         "prefix), a second run changes nothing, ovnisort -c passes, ovniemu -l accepts.  For deeper regions the "
@@ -67,6 +67,10 @@ def streams(draw):
     clk += 1
     evs.append(T.plain("OHe", clk))
     n = draw(st.one_of(st.none(), st.integers(3, 12), st.integers(3, 60)))
+    # seconds instead of nanoseconds between events (an order-preserving map): clock differences beyond 32 bits
+    scale = draw(st.sampled_from([1, 1, 1, 2 ** 31 + 3, 2 ** 32, 5 * 10 ** 9]))
+    for e in evs:
+        e[1] = 1000 + (e[1] - 1000) * scale
     return {"events": evs, "n": n, "second_stream": draw(st.booleans())}
 
 
